@@ -121,7 +121,7 @@ func genHistory(r *vlib.Rand, ctxID int) *hHistory {
 			c.Spec.FP = "" // the legacy format cannot name a bridge
 		}
 		if c.Spec.Transport == "amp" && r.Bool() {
-			c.Spec.Pad = r.StringFrom([]rune("abcXYZ019_-/"), r.Range(0, 12))
+			c.Spec.Pad = cleanPad(r.StringFrom([]rune("abcXYZ019_-/"), r.Range(0, 12)))
 		}
 		c.Spec.Offer = fmt.Sprintf(`{"type":"offer","sdp":"OFFER-c%d-j%d-%x"}`, ctxID, j, r.Uint64())
 		c.StartMs = r.Intn(700)
